@@ -21,7 +21,8 @@ import time
 
 VERIF = os.path.dirname(os.path.abspath(__file__))
 REPO = os.environ.get("VERIF_REPO", "/repo")
-WORK = os.path.join(VERIF, "work")
+WORK = os.environ.get("VERIF_WORK") or os.path.join(VERIF, "work")
+ALT_REPO = os.path.abspath(REPO) != "/repo"
 EXT = os.path.join(VERIF, "harness", "ext")
 INTREE = os.path.join(VERIF, "harness", "intree")
 KIT = os.path.join(EXT, "verifkit")
@@ -92,7 +93,12 @@ def prepare_modfiles():
     base = open(os.path.join(REPO, "go.sum")).read()
     extra = open(os.path.join(EXT, "go.sum.extra")).read() if os.path.exists(
         os.path.join(EXT, "go.sum.extra")) else ""
-    with open(os.path.join(EXT, "go.sum"), "w") as fh:
+    # the ext module is always built through -modfile so that (a) its go.mod in
+    # /verif is never rewritten and (b) VERIF_REPO can point at a scratch worktree
+    extmod = open(os.path.join(EXT, "go.mod")).read().replace("=> /repo", "=> " + os.path.abspath(REPO))
+    with open(os.path.join(d, "ext.go.mod"), "w") as fh:
+        fh.write(extmod)
+    with open(os.path.join(d, "ext.go.sum"), "w") as fh:
         fh.write(base)
         if not base.endswith("\n"):
             fh.write("\n")
@@ -111,7 +117,7 @@ def build_cmd(sub, overlay, modfile, compile_only=False, outbin=None):
         cwd = REPO
         pkg = "./" + sub["pkg"]
     else:
-        cmd += ["-tags", "verif"]
+        cmd += ["-tags", "verif", "-modfile=" + os.path.join(os.path.dirname(modfile), "ext.go.mod")]
         cwd = EXT
         pkg = "./" + sub["pkg"]
     if compile_only:
@@ -416,8 +422,9 @@ def run_check(prop, tier, replay=None):
             "wall_s": round(wall, 2),
             "violations": len(unlisted),
         }
-        os.makedirs(os.path.join(VERIF, "evidence"), exist_ok=True)
-        with open(os.path.join(VERIF, "evidence", prop + ".json"), "w") as fh:
+        evdir = os.path.join(WORK, "evidence") if ALT_REPO else os.path.join(VERIF, "evidence")
+        os.makedirs(evdir, exist_ok=True)
+        with open(os.path.join(evdir, prop + ".json"), "w") as fh:
             json.dump(ev, fh, indent=1, default=str)
 
     for ln in lines:
